@@ -60,3 +60,6 @@ pub struct UuidAsciiError { pub e: u8 }
 pub fn into_conv<T, U: From<T>>(x: T) -> (r: U)
     ensures <U as vstd::std_specs::convert::FromSpec<T>>::obeys_from_spec() ==> r == <U as vstd::std_specs::convert::FromSpec<T>>::from_spec(x)
 { x.into() }
+/// `Vec<u8>` as the salt of a Cryptor: `AsRef<[u8]>` yields its bytes (std)
+pub axiom fn axiom_vec_as_ref_bytes(v: &Vec<u8>)
+    ensures as_ref_bytes::<Vec<u8>>(v) == v@;
